@@ -251,14 +251,14 @@ ROUND7 = {
            "n*g + h(i) up to min(V-h), max(V-h), for every n), optimal_gain_dominates (no policy's gain exceeds g), optimal_gain_unique, "
            "rvi_solve_beats_every_policy (the returned policy's gain is within eps of every policy's gain). Existence of (g,h) for unichain MDPs stays textbook.",
     "C05": " evaluate_maxdiff_bound_closed: the policy's exact discounted value exists and is unique, and a converged max_diff evaluation is within eps/gamma of it.",
-    "C18": " Tie by translation: harness/translate.py regenerates MdpaxV/Gen/Code.lean from /repo's batch_processing.py on every run; init_code_eq_model proves that "
+    "C18": " Tie by translation: harness/translate.py regenerates MdpaxV/Gen/{Batch,Config}.lean from /repo's batch_processing.py on every run; init_code_eq_model proves that "
            "BatchProcessor.__init__ as written (device count, batch size, batch count, padding; `//` as floor division) equals the model for every n, max_batch_size and "
            "device count >= 1, init_code_consistent derives the attribute clauses for the code's own arithmetic. prepare_seq: one processor, several arrays of different dtypes in turn.",
     "C11": " Round 7: slow-storage configurations (every commit delayed so that asynchronous save requests arrive while a write is in flight), interruption by SIGINT (Ctrl-C) as "
            "well as SIGKILL, label = content of every retained step, and the unkilled run's last iteration is the latest checkpoint.",
     "C12": " Round 7: one worker on slow storage (asynchronous saving, frequency 1-2, commits delayed).",
     "C20": " Tie by translation: the five solver and four problem __post_init__ validators and get_convergence_format are translated from /repo's source on every run; "
-           "validators_code_eq_model / validators_code_iff / validators_code_error_class / problem_validators_code_eq_model / format_code_eq_model / format_code_valid prove "
+           "validators_code_eq_model / validators_code_iff / validators_code_error_class / problem_validators_code_eq_model / format_code_eq_model / format_code_valid / verbosity_code_eq_model / threshold_code_eq_model / thresholdOf_code_eq_model / threshold_code_pos (leaf module Props/C20Gen.lean; also the verbosity table and the convergence thresholds of all five classes) prove "
            "that the code as written equals the model (same checks, order and exception classes) for every configuration. Verbosity (model of utils.logging.verbosity_to_loguru_level and Solver.set_verbosity): loguruLevel_ok_iff (accepted exactly on integers 0..4; TypeError for "
            "non-integers, ValueError outside), levelName_injective, verbosity_name_roundtrip (names in any letter case denote the level they are installed for), "
            "setVerbosity_name_eq_int, setVerbosity_ok; tied to the real functions on integers -3..8, non-integers, bool, and 22 names (stored integer and installed loguru handler level).",
